@@ -119,14 +119,36 @@ def run_cache(payload):
     L = small_extractors()
     base = [cand_repr(t) if not isinstance(t, str) else "w:" + t for t in Tokenizer(extractors=L).tokenize(PROBE)[0]]
     nocache = [cand_repr(t) if not isinstance(t, str) else "w:" + t for t in HyperscanTokenizer(extractors=L).tokenize(PROBE)[0]]
+    import copy
+    import re as _re
+    # the same patterns with other flags (case-insensitive extractors made case-sensitive)
+    L2 = []
+    for e in L:
+        e2 = copy.copy(e)
+        e2.__dict__.pop("_compiled_regex", None)
+        if e.flags & _re.I:
+            e2.flags = 0
+        L2.append(e2)
     res = []
     for bi, beh in enumerate(payload["items"]):
         rnd = random.Random(payload["common"]["seed"] * 100003 + bi)
         d = tempfile.mkdtemp(prefix="hscache")
         events = []
+        foreign_files = set()
         try:
             for ev in beh:
-                files = [os.path.join(d, f) for f in os.listdir(d)]
+                files = [os.path.join(d, f) for f in sorted(os.listdir(d)) if f not in foreign_files]
+                if ev == "foreign":
+                    before = set(os.listdir(d))
+                    e = {"ev": ev, "raised": "", "same": True, "load": ""}
+                    try:
+                        HyperscanTokenizer(cache_dir=d, extractors=L2).tokenize(PROBE)
+                    except Exception as ex:  # noqa: BLE001
+                        e["raised"] = "foreign tokenizer: " + type(ex).__name__
+                    # a file it created under a NEW name is its own; a name we already use is shared
+                    foreign_files |= set(os.listdir(d)) - before
+                    events.append(e)
+                    continue
                 if ev == "construct":
                     e = {"ev": ev, "raised": "", "same": True, "load": ""}
                     try:
